@@ -25,4 +25,7 @@ QBound == Len(mq) <= MaxQ
 N2 == (1 :> 1) @@ (2 :> 2)
 N3 == (1 :> 1) @@ (2 :> 2) @@ (3 :> 1)
 N1 == (1 :> 1)
+N3b == (1 :> 3) @@ (2 :> 1)
+N1x2 == (1 :> 1) @@ (2 :> 1)
+N1x3 == (1 :> 1) @@ (2 :> 1) @@ (3 :> 1)
 ====
